@@ -128,7 +128,12 @@ def build(spec, pool_objs):
     vals = np.array(spec["values"], dtype=np.float64).reshape(len(rows), -1)
     if spec["kind"] == "series":
         return pd.Series(vals[:, 0], index=idx, name=spec.get("name"))
-    return pd.DataFrame(vals, index=idx, columns=spec["columns"])
+    df = pd.DataFrame(vals, index=idx, columns=spec["columns"])
+    if spec.get("bigint_column"):
+        # a column of 64-bit integers next to the float ones (nanosecond time stamps): no float holds them
+        base = 1790577000123456789
+        df[spec["bigint_column"]] = np.array([base + 7 * q for q in range(len(df))], dtype=np.int64 if spec["bigint_column"] == "ts" else np.uint64)
+    return df
 
 
 def snapshot(obj):
@@ -144,7 +149,8 @@ def snapshot(obj):
         snap["name"] = obj.name
         snap["columns"] = None
     else:
-        snap["values"] = [[_f(x) for x in r] for r in obj.to_numpy()]
+        per_col = [obj.iloc[:, q].tolist() for q in range(obj.shape[1])]      # column by column: no common dtype
+        snap["values"] = [[_f(col[r]) for col in per_col] for r in range(len(obj))]
         snap["columns"] = [c for c in obj.columns]
     return snap
 
@@ -168,8 +174,23 @@ def _py(k):
 
 
 def _f(x):
+    if isinstance(x, (int, np.integer)) and not isinstance(x, (bool, np.bool_)):
+        return int(x)                   # whole numbers stay exact (time stamps, ids beyond 2**53)
     x = float(x)
     return "nan" if math.isnan(x) else x
+
+
+def _same_values(got, want):
+    """Row values equal; an integer that had to become a float (a NaN elsewhere in its column) equals its float."""
+    if len(got) != len(want):
+        return False
+    for g, w in zip(got, want):
+        if g == w:
+            continue
+        if isinstance(w, int) and isinstance(g, float) and float(w) == g:
+            continue
+        return False
+    return True
 
 
 def snap_equal(a, b):
@@ -303,6 +324,8 @@ def generate(prop, rng, tier):
             cols = rng.choice([["p"], ["p", "q"], ["foo", "bar", "baz"]])
             spec["columns"] = cols
             spec["values"] = [[cnt.next() for _ in cols] for _ in rows]
+            if rng.random() < 0.15:
+                spec["bigint_column"] = rng.choice(["ts", "ts", "hash"])
         if rng.random() < 0.25 and len(rows) > 1:
             # a subset of the rows: for equal level names the other operand then has keys this one lacks (NaN fill)
             keep = sorted(rng.sample(range(len(rows)), rng.randint(1, len(rows) - 1)))
@@ -353,6 +376,11 @@ def generate(prop, rng, tier):
                           "element_level_name": rng.choice(["element_id", "element_id", "scenario_x"]),
                           # loads and cycle numbers are whole numbers here: any numeric dtype holds them
                           "given_dtype": rng.choice(["float64", "float64", "int64", "int32", "uint64", "uint32", "float32"])})
+    if rng.random() < 0.005:
+        # once in a while a parameter beyond a million rows (index engines of pandas change their ways there)
+        keys = rng.sample(["steel", "titanium", "alu", "cast", "brass"], rng.randint(2, 4))
+        steps.insert(rng.randint(0, len(steps)), {"op": "bc_big", "keys": keys, "n_per_key": 1_000_000 // len(keys) + rng.randint(1, 5000),
+                                                  "param_sorted": rng.random() < 0.8})
     tr = {"world": NAME, "pool": pool, "steps": steps, "uuid_seed": rng.randint(1, 10 ** 6)}
     if rng.random() < 0.35:
         # mean stress transformation with ONE kept Haigh diagram object and ONE kept collective object
@@ -446,7 +474,7 @@ def check_keywise(out, label, orig_snap, res, res_names, none_rank, step, who):
         want = table.get(key)
         if want is None:
             want = ["nan"] * ncol
-        if list(vals) != list(want):
+        if not _same_values(list(vals), list(want)):
             out.violate(label, who + ":values", {"step": step, "row": list(r), "restricted_key": list(key), "got": vals, "want": want,
                                                  "original_names": _n(orig_snap["names"]), "result_names": _n(res_names)})
             return False
@@ -547,6 +575,11 @@ def _run(trace, out, log):
             if not _lc_step(st, k, out, log):
                 return
             out.count("op:collective_scale_shift")
+            continue
+        if op == "bc_big":
+            if not _big_step(st, k, out, log):
+                return
+            out.count("op:broadcast_million_rows")
             continue
         i = int(st["obj"]) % len(pool)
         obj = pool[i]
@@ -1057,6 +1090,51 @@ def _wc_step(st, k, out, log):
         out.violate("B4-derived-calculation", "coverage", {"step": k, "rows": len(rows["rows"]), "want": len(el) * len(st["scenarios"])})
         return False
     log.add(k, "wc", rows["rows"], rows["values"])
+    return True
+
+
+def _big_step(st, k, out, log):
+    """A parameter with more than a million rows (loads per material and time step) against a small signal
+    (one curve per material): the same key-wise statement, evaluated with array operations."""
+    keys = list(st["keys"])                     # the order in which the signal lists them
+    n_per = int(st["n_per_key"])
+    obj = pd.DataFrame({"p": [float(10 + q) for q in range(len(keys))], "q": [float(-q) - 0.5 for q in range(len(keys))]},
+                       index=pd.Index(keys, name="mat"))
+    order = sorted(keys) if st.get("param_sorted", True) else list(reversed(keys))
+    lev = np.repeat(np.array(order, dtype=object), n_per)
+    run = np.tile(np.arange(n_per, dtype=np.int64), len(order))
+    prm = pd.Series(np.arange(len(lev), dtype=np.float64) * 0.5, index=pd.MultiIndex.from_arrays([lev, run], names=["mat", "i"]), name="load")
+    obj_before, prm_vals, prm_idx = obj.copy(deep=True), prm.to_numpy().copy(), prm.index
+    try:
+        prm_r, obj_r = Broadcaster(obj).broadcast(prm)
+    except Exception as e:   # noqa
+        out.violate("exception", "broadcast:million-rows", {"step": k, "type": type(e).__name__, "msg": str(e)[:200]})
+        return False
+    if not obj.equals(obj_before) or list(obj.index.names) != ["mat"] or not np.array_equal(prm.to_numpy(), prm_vals) or prm.index is not prm_idx and not prm.index.equals(prm_idx):
+        out.violate("B1-operands-unmodified", "million-rows", {"step": k})
+        return False
+    try:
+        ok_index = prm_r.index.equals(obj_r.index) and len(prm_r) == len(prm) and set(prm_r.index.names) == {"mat", "i"}
+        mats = prm_r.index.get_level_values("mat")
+        runs = prm_r.index.get_level_values("i").to_numpy()
+        pos_of = {m_: q for q, m_ in enumerate(order)}
+        want_prm = (np.array([pos_of[m_] for m_ in mats.unique()])[mats.codes if hasattr(mats, "codes") else pd.Categorical(mats, categories=list(mats.unique())).codes] * n_per + runs) * 0.5
+        ok_prm = np.array_equal(prm_r.to_numpy(), want_prm)
+        key_pos = {m_: q for q, m_ in enumerate(keys)}
+        codes = pd.Categorical(mats, categories=keys).codes
+        ok_obj = np.array_equal(obj_r["p"].to_numpy(), 10.0 + codes) and np.array_equal(obj_r["q"].to_numpy(), -codes.astype(np.float64) - 0.5)
+    except Exception as e:   # noqa
+        out.violate("B3-keywise-values", "million-rows:shape", {"step": k, "type": type(e).__name__, "msg": str(e)[:200]})
+        return False
+    if not ok_index:
+        out.violate("B2-identical-index", "million-rows", {"step": k, "rows": [len(prm_r), len(obj_r)]})
+        return False
+    if not ok_prm or not ok_obj:
+        bad = int(np.sum(obj_r["p"].to_numpy() != 10.0 + codes))
+        out.violate("B3-keywise-values", "million-rows:" + ("object" if not ok_obj else "parameter"),
+                    {"step": k, "signal_key_order": keys, "rows": len(prm_r), "object_rows_with_another_keys_value": bad})
+        return False
+    log.add(k, "big", keys, n_per, len(prm_r))
     return True
 
 
